@@ -38,6 +38,7 @@ def parseLine (l : Line) : Option Obs := do
          panicked := (kv? l.obs "panic") = some "1" || (kv? l.obs "panic") = some "2",
          goexit := (kv? l.obs "panic") = some "2",
          spanic := (kv? l.op "panic") = some "1",
+         nilv := (kv? l.op "nilv") = some "1",
          pk := ← (match kv? l.op "pk" with | none => some 1 | some v => v.toNat?),
          ek := ← (match kv? l.op "ek" with | none => some 1 | some v => v.toNat?),
          ep := ← (match kv? l.op "ep" with | none => some 0 | some v => v.toNat?) }
@@ -164,7 +165,11 @@ def runSection (r : Report) (s : Section) : Report := Id.run do
     if o.hold then r := r.addCover s!"{mode}-held"
     if o.panicked then r := r.addCover s!"{mode}-fn-panicked"
     if mode = "rm" && !o.ran && o.panicked then r := r.addCover "rm-joiner-of-panicked-flight-panics"
-    if mode = "sf" && !o.ran && o.val.isNone && !o.panicked then r := r.addCover "sf-joiner-of-panicked-flight-got-zero"
+    if mode = "sf" && !o.ran && o.val.isNone && !o.panicked then
+      if h.any (fun l => l.key = o.key && l.ran && l.nilv && l.id ≠ o.id && callsOverlap l o) then
+        r := r.addCover "sf-joiner-got-nil-nil-of-an-execution-or-zero-of-a-panicked-one"
+      else r := r.addCover "sf-joiner-of-panicked-flight-got-zero"
+    if o.ran && o.nilv then r := r.addCover s!"{mode}-fn-returned-nil-nil"
     if mode = "sf" then
       if !o.ran then
         match h.find? (fun l => some l.id = o.val) with
